@@ -336,8 +336,11 @@ def r12c(F):
     need(aggs, "Builtins::convert builds no Primitive::Str")
     n = 0
     for b, rv in aggs:
-        src = util.source_calls(fn, rv["ops"][0])
+        src = util.source_calls(fn, rv["ops"][0], pass_through=util.PASS_THROUGH + ("::into_owned", "::as_slice", "::into_boxed_str", "::into_string",
+                                                                                  "::as_bytes", "::as_mut_slice", "::branch"))
         names = sorted({c[0] for c in src if c[0] != "param"})
+        own = [c for c in names if c in F.fns and c.startswith(("ucglib::", "<ucglib::")) and "from_utf8" not in c]
+        need(not own, "Builtins::convert: the text passes through %s, a function of the crate this rule does not look into" % own[:1])
         if not names and any(c[0] == "param" for c in src):
             continue        # a string handed in by the caller (not the converted text)
         decoded = [c for c in names if "from_utf8" in c]
